@@ -54,14 +54,6 @@ pub open spec fn cmp_comparable(bip: BuiltInPredicate, s: SS) -> bool {
 }
 
 // --- float / float arms ---------------------------------------------------------------
-// TRUSTED(T6): IEEE-754 comparison of two f64 values is a deterministic function of the two values
-// (Verus leaves `obeys_*_spec` for f64 undetermined; this axiom fixes it to true, which makes the exec
-// operators == < <= > >= on f64 equal to vstd's spec functions eq_spec / partial_cmp_spec).
-pub axiom fn axiom_f64_cmp_is_a_function()
-    ensures
-        <f64 as vstd::std_specs::cmp::PartialEqSpec>::obeys_eq_spec(),
-        <f64 as vstd::std_specs::cmp::PartialOrdSpec>::obeys_partial_cmp_spec();
-
 pub open spec fn cmp_floats(bip: BuiltInPredicate, s: SS) -> Option<(f64, f64)> {
     match cmp_operands(bip, s) {
         Some(p) => match p { (Unifiable::SFloat(a), Unifiable::SFloat(b)) => Some((a, b)), _ => None },
